@@ -555,7 +555,16 @@ class TagAttrDict(Dict[str, "str | HTML"]):
                 nm = self._normalize_attr_name(k)
 
                 if nm in attrz:
-                    val = attrz[nm] + " " + val
+                    prev = attrz[nm]
+                    # When plain text is merged with an HTML() value the result is HTML()
+                    # (written out verbatim), so the plain part must be escaped for an
+                    # attribute context here; HTML.__add__()/__radd__() would only
+                    # escape it for a text context (leaving quotes and newlines as is).
+                    if isinstance(prev, HTML) and not isinstance(val, HTML):
+                        val = HTML(html_escape(val, attr=True))
+                    elif isinstance(val, HTML) and not isinstance(prev, HTML):
+                        prev = HTML(html_escape(prev, attr=True))
+                    val = prev + " " + val
 
                 attrz[nm] = val
 
